@@ -28,7 +28,8 @@ pub fn fuzz_case<C: Clone + Send + Serialize + 'static>(prop: &str, stage: &str,
     std::process::abort();
 }
 
-/// Generic target: SEV_FUZZ_PROP names the property; the first byte selects one of its random stages, the rest
+/// Generic target: SEV_FUZZ_PROP names the property (stages that start other processes - C20's process replays - are
+/// left to the proptest engine: the fuzz binary is not the `sev` binary they re-execute); the first byte selects one of its random stages, the rest
 /// is the random stream of that stage's strategy.
 pub fn fuzz_property(data: &[u8]) {
     use std::sync::OnceLock;
@@ -38,7 +39,7 @@ pub fn fuzz_property(data: &[u8]) {
         let id = std::env::var("SEV_FUZZ_PROP").expect("SEV_FUZZ_PROP");
         let tier = if std::env::var("SEV_FUZZ_TIER").as_deref() == Ok("quick") { Tier::Quick } else { Tier::Thorough };
         let p = crate::props::property(&id, tier).expect("unknown property");
-        let stages: Vec<Box<dyn DynStage>> = p.stages.into_iter().filter(|s| s.is_random()).collect();
+        let stages: Vec<Box<dyn DynStage>> = p.stages.into_iter().filter(|s| s.is_random() && !s.name().starts_with("processes")).collect();
         assert!(!stages.is_empty(), "no random stage");
         (id, stages)
     });
